@@ -453,6 +453,9 @@ def run(chk, prog):
                         "%s passes the destination through %s before encoding it: the next hop can be asked for an address that differs from the "
                         "one the client requested and the rules were evaluated on" % (f.path, short(c.name)))
 
+    # ------------------------------------------------------------------ MAP: the transparent-proxy destination is normalised exactly
+    shared.rule_addr_map(chk, prog, "MAP", "original destination taken from a redirected packet (and every peer address)")
+
     # ------------------------------------------------------------------ W1 on the encoders
     shared.rule_w1(chk, prog, ["src/common/http.rs", "src/common/socks.rs", "src/common/frames.rs"], rule="W1")
 
